@@ -62,7 +62,9 @@ def make_target(case, shift=0.0):
     spec = simple_target_spec(np.random.default_rng(case["tseed"]), case["d"], case["mode"], zero=case.get("zero", False))
     spec["width"] = [w * float(case.get("narrow", 1.0)) for w in spec["width"]]
     spec["shift"] = float(shift)
-    return Target.from_spec(spec)
+    t = Target.from_spec(spec)
+    t.reuse_out = case["mode"] == "vector" and case.get("tseed", 0) % 2 == 1  # half of the vectorised likelihoods reuse their output buffer
+    return t
 
 
 def build(case, target=None, output_dir=None, random_state="case", n_particles=None, pool="case"):
